@@ -440,7 +440,7 @@ impl Format for Mpq {
                     rec.note("mpq_bytes_read", d.len() as u64);
                 }
             }
-            for e in listed.iter().take(8) {
+            for e in listed.iter().take(if crate::thorough() { 8 } else { 3 }) {
                 if let Some((hi, bi)) = e.table_indices {
                     let _ = rec.leaf("Archive::read_file_by_indices", || a.read_file_by_indices(hi, bi));
                 }
